@@ -1,9 +1,103 @@
-(** C19: safe-browsing lookups reveal only hash prefixes; the cache never
-    changes the verdict.  Only statements here; proofs in Proofs/HashPrefix.v. *)
+(** C19: safe-browsing / parental-control lookups reveal only hash prefixes;
+    the cache never changes the verdict.
+    Only statements here; proofs live in Proofs/HashPrefix.v.  Everything is
+    stated for an arbitrary hash function [sha], an arbitrary public-suffix
+    function [pubsuf], an arbitrary TXT suffix and cache time. *)
 From Coq Require Import ZArith List.
-From AGH Require Import Base.Run Model.HashPrefix Proofs.HashPrefix.
+From AGH Require Import Base.Run Base.Bytes Model.HashPrefix Proofs.HashPrefix.
+Import ListNotations.
 
-Theorem C19_only_prefixes_question : forall suffix hs1 hs2,
-  map prefix_of hs1 = map prefix_of hs2 -> question suffix hs1 = question suffix hs2.
-Proof. exact question_only_prefixes. Qed.
-Print Assumptions C19_only_prefixes_question.
+(** The question is the hex of the 2-byte prefixes, each followed by a dot,
+    then the service suffix: a function of the prefix list alone. *)
+Theorem C19_only_prefixes_shape : forall suffix hs,
+  question suffix hs = concat (map (fun p => hex_of p ++ [dot]) (map prefix_of hs)) ++ suffix.
+Proof. exact question_shape. Qed.
+Print Assumptions C19_only_prefixes_shape.
+
+(** Non-interference: whatever the cache holds, two hosts whose enumerated
+    names have the same prefixes and that both cause a lookup send the very
+    same question (full hashes and names do not reach the wire). *)
+Theorem C19_only_prefixes : forall sha pubsuf suffix cache_time svc1 svc2 now c host1 host2 q1 q2,
+  map prefix_of (hostname_to_hashes sha pubsuf host1)
+    = map prefix_of (hostname_to_hashes sha pubsuf host2) ->
+  o_question (snd (check sha pubsuf suffix cache_time svc1 now host1 c)) = Some q1 ->
+  o_question (snd (check sha pubsuf suffix cache_time svc2 now host2 c)) = Some q2 ->
+  q1 = q2.
+Proof. exact check_question_only_prefixes. Qed.
+Print Assumptions C19_only_prefixes.
+
+(** Enumeration: the candidates are the dot-aligned suffixes of the last four
+    labels, longest first; the hashed names are those before the first one
+    equal to the ICANN public suffix (none is cut for other suffixes, unless
+    the name ends in a dot). *)
+Theorem C19_enumeration : forall pubsuf host,
+  let cands := subdomains (trim_host host) in
+  let ps := effective_suffix (pubsuf host) in
+  (exists rest, cands = names_to_hash pubsuf host ++ rest /\
+                Forall (fun m => m <> ps) (names_to_hash pubsuf host) /\
+                (rest = [] \/ exists l3, rest = ps :: l3)) /\
+  (forall n, In n cands <-> trim_host host <> [] /\ aligned_suffix n (trim_host host)) /\
+  ((count dot host < 4 /\ trim_host host = host)%nat \/
+   (exists pre, host = pre ++ dot :: trim_host host /\ count dot (trim_host host) = 3%nat)).
+Proof.
+  intros. split; [apply names_to_hash_spec|]. split; [intros; apply subdomains_spec|apply trim_host_spec].
+Qed.
+Print Assumptions C19_enumeration.
+
+(** Verdict of a lookup with an empty cache against a service holding [db]:
+    blocked iff the database holds the hash of one of the enumerated names. *)
+Theorem C19_verdict : forall sha pubsuf suffix cache_time db now host,
+  Forall hash_wf db ->
+  fresh_verdict sha pubsuf suffix cache_time db now host = true <->
+  exists n, In n (names_to_hash pubsuf host) /\ In (sha n) db.
+Proof. exact verdict_spec. Qed.
+Print Assumptions C19_verdict.
+
+(** ... and for any service: iff a well-formed string of the answer is the
+    full hash of one of the names asked about. *)
+Theorem C19_verdict_answer : forall sha pubsuf suffix cache_time svc now host strs hs,
+  find_in_cache now [] (hostname_to_hashes sha pubsuf host) = ToRequest hs ->
+  svc (map prefix_of hs) = Some strs ->
+  o_blocked (snd (check sha pubsuf suffix cache_time svc now host [])) = true <->
+  exists h, In h hs /\ In h (parse_txt strs).
+Proof. exact verdict_answer_spec. Qed.
+Print Assumptions C19_verdict_answer.
+
+(** Cache transparency: for every history of checks (each against a service
+    for [db] that may fail or add malformed strings), clock changes and
+    evictions, starting from an empty cache: every check that did not fail
+    returns what a fresh lookup (at any instant) returns; a failed one says
+    "not blocked" and leaves the cache unchanged. *)
+Theorem C19_cache_transparent : forall sha pubsuf suffix cache_time db ops now0,
+  Forall hash_wf db -> Forall (op_ok db) ops ->
+  forall now', history_transparent (fresh_verdict sha pubsuf suffix cache_time db now')
+                 (now0, []) ops (run sha pubsuf suffix cache_time ops (now0, [])).
+Proof. exact cache_transparent. Qed.
+Print Assumptions C19_cache_transparent.
+
+(** The invariant behind it, for any starting cache. *)
+Theorem C19_cache_invariant : forall sha pubsuf suffix cache_time db svc now host c,
+  cache_inv db c -> svc_ok db svc ->
+  let res := check sha pubsuf suffix cache_time svc now host c in
+  cache_inv db (fst res) /\
+  (o_err (snd res) = false -> o_blocked (snd res) = db_verdict sha pubsuf db host) /\
+  (o_err (snd res) = true -> fst res = c /\ o_blocked (snd res) = false).
+Proof. exact check_transparent. Qed.
+Print Assumptions C19_cache_invariant.
+
+(** The database service of the model is a lookup service in that sense. *)
+Theorem C19_db_service_ok : forall db, Forall hash_wf db -> svc_ok db (db_service db).
+Proof. exact db_service_ok. Qed.
+Print Assumptions C19_db_service_ok.
+
+(** Non-vacuity: a concrete history (positive entry stored by a clean prefix
+    twin, hit, expiry, failing upstream, eviction) satisfying the premises,
+    and two distinct hosts with equal prefix lists. *)
+Example C19_premises_satisfiable :
+  Forall hash_wf Examples.db /\ Forall (op_ok Examples.db) Examples.ops /\
+  map prefix_of (hostname_to_hashes Examples.sha Examples.pubsuf Examples.evil)
+  = map prefix_of (hostname_to_hashes Examples.sha Examples.pubsuf Examples.twin)
+  /\ Examples.evil <> Examples.twin.
+Proof.
+  split; [exact db_wf_example|]. split; [apply history_example|exact same_prefixes_example].
+Qed.
